@@ -16,7 +16,7 @@ func init() {
 	register(&mon.Spec{
 		ID:    "C07",
 		Level: "exploration",
-		Rule: "eleven gate scripts against p9p.ServeConn with a scripted Handler, each repeated R times with PRNG-chosen tags, message kinds, extra background requests and sub-orderings (the server's own select between 'completed' and 'context done' is random, hence the repetitions): " +
+		Rule: "eleven gate scripts against p9p.ServeConn with a scripted Handler, each repeated R times with PRNG-chosen tags, message kinds, extra background requests (0-3, in one case of eight 64-133) and sub-orderings (the server's own select between 'completed' and 'context done' is random, hence the repetitions): " +
 			"(1) flush while the handler runs, handler honours cancellation; (2) handler ignores cancellation and completes after the Rflush; (3) as 2 but the tag is reused by request B before A completes, A then B; (4) as 3 with A and B completing together; " +
 			"(5) completion and Tflush issued back-to-back in both orders; (6) flush of a tag that was never used; (7) flush naming its own tag; (8) double flush; (9) flush, then immediate reuse of the tag (must be dispatched, not refused as duplicate); (10) the client stops reading so that the server's writer and serve loop stall, then a request and the Tflush naming it arrive in one write; (11) a request is dispatched, the client stops reading so that one bulky reply occupies the server's writer, the Tflush arrives (its acknowledgement cannot be written yet), then the client either hangs up (serving must return and the flushed handler must have been cancelled) or drains (acknowledgement arrives, handler cancelled, flushed request silent). The request that gets flushed is of a PRNG-chosen kind (Tstat, Tclunk, Tremove, Topen, Tread, Twrite, Twalk, Tcreate, Twstat, Tattach, Tauth). " +
 			"Oracle over the wire log (reference-codec parsed) and handler observations: flushed handler's ctx is Done once the flush is answered; every Tflush gets exactly one reply; no reply to the flushed request after the flush reply (at most one before it, in script 5); a reply on a reused tag carries the new request's uid, never the flushed one's; every non-flushed request is answered exactly once. " +
@@ -30,7 +30,7 @@ func init() {
 		Shards:    shards(8, 16),
 		Timeout:   timeouts(3*time.Minute, 40*time.Minute),
 		MinEvals:  100,
-		Required:  []string{"script:1", "script:2", "script:3", "script:4", "script:5", "script:6", "script:7", "script:8", "script:9", "script:10", "script:11", "busy_writer_then_close", "busy_writer_then_drain", "late_completions", "flush_replies_checked", "ctx_done_observed", "reused_tag_replies_checked"},
+		Required:  []string{"script:1", "script:2", "script:3", "script:4", "script:5", "script:6", "script:7", "script:8", "script:9", "script:10", "script:11", "busy_writer_then_close", "busy_writer_then_drain", "flush_with_64_or_more_outstanding", "late_completions", "flush_replies_checked", "ctx_done_observed", "reused_tag_replies_checked"},
 		Run:       runC07,
 	})
 }
@@ -210,6 +210,10 @@ func runC07Case(w *mon.W, script, no int) {
 	var background []int
 	bgTags := map[int]p9p.Tag{}
 	nbg := r.Intn(4)
+	if r.Intn(8) == 0 {
+		nbg = 64 + r.Intn(70) // many requests outstanding when the flush arrives
+		w.Count("flush_with_64_or_more_outstanding", 1)
+	}
 	for i := 0; i < nbg; i++ {
 		bt := t + 100 + p9p.Tag(i)
 		u := c.request(bt)
